@@ -41,7 +41,7 @@ def tokenize(text):
         else:
             k = "other"
         tk = {"k": k, "id": t.upper() if k == "word" else (" " if k == "blank" else ("\n" if k == "eol" else t)),
-              "text": t, "join": False, "split": False, "case": "asis", "width": "one", "extra": "none", "line": line}
+              "text": t, "join": False, "split": False, "pad": False, "tight": False, "case": "asis", "width": "one", "extra": "none", "line": line}
         toks.append(tk)
         if k == "eol":
             line += 1
@@ -79,6 +79,22 @@ def tokenize(text):
             i = tk["line"]
             if i + 1 < len(lines) and simple(i) and simple(i + 1):
                 tk["join"] = True
+                # a colon WITHOUT a blank before it, after a line that is one bare word, would turn that word into a label
+                tk["tight"] = len(re.findall(r'\S+', lines[i])) > 1
+    # a colon that separates two statements may have blanks around it; the colon of a label may not (it belongs to the name)
+    start = 0
+    for i in range(len(toks) + 1):
+        if i == len(toks) or toks[i]["k"] == "eol":
+            ln = toks[start:i]
+            words = [t for t in ln if t["k"] != "blank"]
+            head = words[0]["text"].upper() if words else ""
+            comment_at = next((j for j, t in enumerate(ln) if t["text"].startswith("'")), len(ln))
+            for j, t in enumerate(ln):
+                if t["k"] == "colon":
+                    before = [x for x in ln[:j] if x["k"] != "blank"]
+                    is_label = len(before) == 1 and before[0]["k"] in ("word", "other")
+                    t["pad"] = (not is_label) and j < comment_at and head not in ("DATA", "REM") and len(before) > 0
+            start = i + 1
     # a blank inside a line that only separates tokens; leading blanks of a line are stretchable too
     return toks
 
@@ -105,6 +121,16 @@ def materialise(toks, sites, eolkind, rng):
         elif k == "eol":
             if mv == "join":
                 t = " : "
+            elif mv == "jointight":
+                t = ":"
+            elif mv == "joinleft":
+                t = " :"
+            elif mv == "commentline":
+                t = eol + "' a line of its own" + eol
+            elif mv == "commentblank":
+                t = " ' note" + eol + eol
+            elif mv == "commentlineblank":
+                t = eol + "  ' a line of its own" + eol + " " + eol
             elif mv == "blankline":
                 t = eol + eol
             elif mv == "trailblank":
@@ -115,6 +141,10 @@ def materialise(toks, sites, eolkind, rng):
                 t = eol
         elif k == "colon" and mv == "split":
             t = eol
+        elif k == "colon" and mv == "pad":
+            t = "  " + t + "  "
+        elif k == "colon" and mv == "padleft":
+            t = " " + t
         out.append(t)
     return "".join(out)
 
@@ -206,7 +236,7 @@ def run(tier, replay):
     spath = os.path.join(d, "seeds.ndjson")
     with open(spath, "w") as f:
         for s in sd:
-            f.write(dumps({"id": s["id"], "toks": [{k: tk[k] for k in ("k", "id", "join", "split", "case", "width", "extra")} for tk in s["toks"]]}) + "\n")
+            f.write(dumps({"id": s["id"], "toks": [{k: tk[k] for k in ("k", "id", "join", "split", "pad", "tight", "case", "width", "extra")} for tk in s["toks"]]}) + "\n")
     res = run_tlc("Layout.tla", "Layout_%s.cfg" % tier, os.path.join(d, "tlc"), env={"SEEDS": spath}, timeout=3000)
     if res.timed_out:
         raise ToolError("TLC timed out on Layout.tla")
